@@ -278,7 +278,7 @@ impl CaseEngine for C19 {
         args.u64("n", if args.thorough() { 3000 } else { 240 }) as usize
     }
     fn case_timeout_s(&self, _args: &Args) -> u64 {
-        900
+        180
     }
     fn run_case(&self, args: &Args, case: usize, rep: &mut Report, _p: &dyn Fn(&str)) {
         let seed = derive(args.u64("seed", 1), &[tag("C19"), case as u64]);
